@@ -1,37 +1,59 @@
 import AlgoVerif.Proofs.C01Avl
 import AlgoVerif.Proofs.C01RbTop
 import AlgoVerif.Proofs.C01Inst
+import AlgoVerif.Proofs.C01Equal
 import AlgoVerif.Generated.C01
 /-!
 # C01 — ordered symbol tables behave as a sorted map on every operation history
 
-`run kind cmp eqVal ops` executes the history `ops` on three fresh tables of the Model
-(`Model/C01.lean`, the transcription of `symboltable/{bst,avl,red_black}.go`); `Spec.accepts` says that
-the abstract sorted map (`Spec/C01.lean`) admits the sequence of results.  The theorems say: for
-every lawful comparator, every value equality, every finite history of API calls (every predicate,
-every argument), the Model neither panics nor diverges and every result is the one the abstract
-sorted map gives.
+`run kind a b c ops` executes the history `ops` on three tables of the Model (`Model/C01.lean`, the
+transcription of `symboltable/{bst,avl,red_black}.go`); the theorems take three *fresh* tables
+`Table.new cmpA eqA`, `Table.new cmpB eqB`, `Table.new cmpC eqC`, i.e. `New…(cmp, eqVal)` called three times,
+**each time with its own comparator and its own value equality**.  `Spec.accepts` says that the abstract
+sorted maps (`Spec/C01.lean`; each one ascending in its own comparator) admit the sequence of results.  The
+theorems say: for all lawful comparators (one per table — the same one, or e.g. the natural and the reverse
+order), all value equalities, every finite history of API calls (every predicate, every argument), the Model
+neither panics nor diverges and every result is the one the abstract sorted maps give.  In particular
+`a.Equal(b)` between two tables that enumerate the same pairs in different orders is inside the theorems; by
+`C01_equal_comparator_free` the admitted answer is the comparator-free "both hold the same key-value pairs".
+`SelectMatch`/`PartitionMatch` results inherit the receiver's comparator and value equality.
 -/
 open AlgoVerif AlgoVerif.C01
 
-theorem C01_bst {K V : Type} (cmp : K → K → Int) (h : LawfulCmp cmp) (eqVal : V → V → Bool)
-    (ops : List (Op K V)) :
-    ∃ s outs, run .bst cmp eqVal ops = .ok (s, outs) ∧ Spec.accepts cmp eqVal ([], [], []) ops outs := by
-  obtain ⟨s, outs, e, -, acc⟩ := runFrom_ok (bst_kindOK h) h eqVal ops (.nil, .nil, .nil) ⟨inv_nil, inv_nil, inv_nil⟩
+theorem C01_bst {K V : Type} (cmpA cmpB cmpC : K → K → Int) (hA : LawfulCmp cmpA) (hB : LawfulCmp cmpB)
+    (hC : LawfulCmp cmpC) (eqA eqB eqC : V → V → Bool) (ops : List (Op K V)) :
+    ∃ s outs, run .bst (.new cmpA eqA) (.new cmpB eqB) (.new cmpC eqC) ops = .ok (s, outs) ∧
+      Spec.accepts (.new cmpA eqA, .new cmpB eqB, .new cmpC eqC) ops outs := by
+  obtain ⟨s, outs, e, -, acc⟩ := runFrom_ok (fun _ h => bst_kindOK h) ops _
+    (goodS_new (fun _ h => bst_kindOK h) hA hB hC eqA eqB eqC)
   exact ⟨s, outs, e, acc⟩
 
-theorem C01_avl {K V : Type} (cmp : K → K → Int) (h : LawfulCmp cmp) (eqVal : V → V → Bool)
-    (ops : List (Op K V)) :
-    ∃ s outs, run .avl cmp eqVal ops = .ok (s, outs) ∧ Spec.accepts cmp eqVal ([], [], []) ops outs := by
-  obtain ⟨s, outs, e, -, acc⟩ := runFrom_ok (avl_kindOK h) h eqVal ops (.nil, .nil, .nil) ⟨inv_nil, inv_nil, inv_nil⟩
+theorem C01_avl {K V : Type} (cmpA cmpB cmpC : K → K → Int) (hA : LawfulCmp cmpA) (hB : LawfulCmp cmpB)
+    (hC : LawfulCmp cmpC) (eqA eqB eqC : V → V → Bool) (ops : List (Op K V)) :
+    ∃ s outs, run .avl (.new cmpA eqA) (.new cmpB eqB) (.new cmpC eqC) ops = .ok (s, outs) ∧
+      Spec.accepts (.new cmpA eqA, .new cmpB eqB, .new cmpC eqC) ops outs := by
+  obtain ⟨s, outs, e, -, acc⟩ := runFrom_ok (fun _ h => avl_kindOK h) ops _
+    (goodS_new (fun _ h => avl_kindOK h) hA hB hC eqA eqB eqC)
   exact ⟨s, outs, e, acc⟩
 
-theorem C01_rb {K V : Type} (cmp : K → K → Int) (h : LawfulCmp cmp) (eqVal : V → V → Bool)
-    (ops : List (Op K V)) :
-    ∃ s outs, run .rb cmp eqVal ops = .ok (s, outs) ∧ Spec.accepts cmp eqVal ([], [], []) ops outs := by
-  obtain ⟨s, outs, e, -, acc⟩ := runFrom_ok (rb_kindOK h) h eqVal ops (.nil, .nil, .nil)
-    ⟨⟨inv_nil, llrb_nil⟩, ⟨inv_nil, llrb_nil⟩, ⟨inv_nil, llrb_nil⟩⟩
+theorem C01_rb {K V : Type} (cmpA cmpB cmpC : K → K → Int) (hA : LawfulCmp cmpA) (hB : LawfulCmp cmpB)
+    (hC : LawfulCmp cmpC) (eqA eqB eqC : V → V → Bool) (ops : List (Op K V)) :
+    ∃ s outs, run .rb (.new cmpA eqA) (.new cmpB eqB) (.new cmpC eqC) ops = .ok (s, outs) ∧
+      Spec.accepts (.new cmpA eqA, .new cmpB eqB, .new cmpC eqC) ops outs := by
+  obtain ⟨s, outs, e, -, acc⟩ := runFrom_ok (fun _ h => rb_kindOK h) ops _
+    (goodS_new (fun _ h => rb_kindOK h) hA hB hC eqA eqB eqC)
   exact ⟨s, outs, e, acc⟩
+
+/-- What the abstract maps answer to `Equal` does not depend on the comparators the two tables were built
+with: for any two lawful comparators and maps ascending in them, `Spec.equal` (the answer `C01_bst/avl/rb`
+prove the Model gives) is true exactly when every pair of either map has its key in the other one with an
+`eqVal`-equal value — keys compared with `=`, no order involved.  So a natural-order table and a
+reverse-order table holding the same pairs are `Equal`. -/
+theorem C01_equal_comparator_free {K V : Type} (cmp₁ cmp₂ : K → K → Int) (h₁ : LawfulCmp cmp₁)
+    (h₂ : LawfulCmp cmp₂) (eqVal : V → V → Bool) (m₁ m₂ : Spec.Map K V) (s₁ : Spec.Sorted cmp₁ m₁)
+    (s₂ : Spec.Sorted cmp₂ m₂) :
+    Spec.equal cmp₁ cmp₂ eqVal m₁ m₂ = true ↔ Spec.SamePairs eqVal m₁ m₂ :=
+  equal_iff_samePairs h₁ h₂ eqVal s₁ s₂
 
 /-- `Traverse` stated exactly (not only up to the enumeration the sorted map admits): in each of the eight
 orders, with a visitor that stops after `limit` pairs (`0` = never), it visits precisely the first pairs of
@@ -64,24 +86,45 @@ example : LawfulCmp cmpDesc := lawful_cmpDesc
 example : LawfulCmp cmpDiff := lawful_cmpDiff
 example : LawfulCmp cmpDiff7 := lawful_cmpDiff7
 example : LawfulCmp cmpRDiff := lawful_cmpRDiff
+example : LawfulCmp cmpRDiff3 := lawful_cmpRDiff3
+/-- … and two orders that are neither the natural one nor its reverse: by absolute value then sign, evens
+before odds -/
+example : LawfulCmp cmpAbsSign := lawful_cmpAbsSign
+example : LawfulCmp cmpEvenOdd := lawful_cmpEvenOdd
 
-example : okAnd (run .rb cmpDiff7 eqInt
+/-- the seeded change C01-s1 in the Model's terms: a natural-order table and a reverse-order table of the same
+kind holding the same three pairs are `Equal` (both ways round, and after `SelectMatch`, whose result inherits
+the receiver's comparator), and stop being so after a `Put` of a different value -/
+example : okAnd (run .avl (.new cmpAsc eqInt) (.new cmpDesc eqInt) (.new cmpAbsSign eqInt)
+      [.put 0 7, .put 3 5, .put (-2) 1, .swap, .put 3 5, .put (-2) 1, .put 0 7, .equal, .swap, .equal, .all, .swap,
+        .all, .selectMatch (fun _ _ => true), .swap, .equal, .equalSelf, .put 0 8, .equal])
+    (fun r => outBools r.2 == [true, true, true, true, false] &&
+      r.1.1.root.toList == [(3, 5), (0, 8), (-2, 1)] && r.1.2.1.root.toList == [(3, 5), (0, 7), (-2, 1)] &&
+      r.1.2.2.root.toList == []) = true := by decide
+
+/-- the hypotheses of `C01_equal_comparator_free` on those two listings -/
+example : Spec.Sorted cmpAsc [((-2 : Int), (1 : Int)), (0, 7), (3, 5)] ∧
+    Spec.Sorted cmpDesc [((3 : Int), (5 : Int)), (0, 7), (-2, 1)] ∧
+    Spec.equal cmpAsc cmpDesc eqInt [((-2 : Int), (1 : Int)), (0, 7), (3, 5)] [(3, 5), (0, 7), (-2, 1)] = true := by
+  refine ⟨?_, ?_, by decide⟩ <;> simp [Spec.Sorted, cmpAsc, cmpDesc]
+
+example : okAnd (run1 .rb cmpDiff7 eqInt
       [.put 1 1, .put 3 3, .put 2 2, .put 7 7, .put 6 6, .put 5 5, .put 4 4, .delete 2, .delete 6, .deleteMin,
         .deleteMax, .allUntil 2, .equalOther])
-    (fun r => r.1.1.sz == 3) = true := by decide
+    (fun r => r.1.1.root.sz == 3) = true := by decide
 
 /-- a history with a double rotation (AVL: 1, 3, 2) reaching a 7-key tree, then a two-child `Delete`,
 `DeleteMin`, `DeleteMax`, a query on an absent key and a `SelectMatch`, runs to completion -/
-example : okAnd (run .avl cmpAsc eqInt
+example : okAnd (run1 .avl cmpAsc eqInt
       [.put 1 1, .put 3 3, .put 2 2, .put 7 7, .put 6 6, .put 5 5, .put 4 4, .size, .delete 4, .deleteMin,
         .deleteMax, .floor 4, .selectMatch (fun k _ => k % 2 == 0), .swap, .all])
-    (fun r => r.1.1.sz == 2 && r.1.2.1.sz == 4) = true := by decide
+    (fun r => r.1.1.root.sz == 2 && r.1.2.1.root.sz == 4) = true := by decide
 
-example : okAnd (run .rb cmpDesc eqInt
+example : okAnd (run1 .rb cmpDesc eqInt
       [.put 1 1, .put 3 3, .put 2 2, .put 7 7, .put 6 6, .put 5 5, .put 4 4, .delete 2, .delete 6, .deleteMin,
         .deleteMax, .rank 4, .equal])
-    (fun r => r.1.1.sz == 3) = true := by decide
+    (fun r => r.1.1.root.sz == 3) = true := by decide
 
-example : okAnd (run .bst cmpAsc eqInt
+example : okAnd (run1 .bst cmpAsc eqInt
       [.put 4 4, .put 2 2, .put 6 6, .put 1 1, .put 3 3, .put 5 5, .put 7 7, .delete 4, .delete 2, .select 2])
-    (fun r => r.1.1.sz == 5) = true := by decide
+    (fun r => r.1.1.root.sz == 5) = true := by decide
